@@ -27,7 +27,7 @@ Proof. intros H. repeat constructor; auto. Qed.
 
 Lemma trace_init_above N h K : forall n t, Forall (act_above N h) (trace_init_acts K n t).
 Proof.
-  induction n as [|n IH]; intros t; simpl; [constructor|].
+  induction n as [|n IH]; intros t; cbn [trace_init_acts]; [constructor|].
   apply Forall_app; split; [apply trace_cell_above; exact I | apply IH].
 Qed.
 
